@@ -160,6 +160,8 @@ func (r *RecRes) Close(ctx context.Context) error {
 
 // FirstFunc returns the application's "_first" function for Engine.WithFirst (recorded like any other call).
 func (r *RecRes) FirstFunc() resource.EntryFunc {
+	n := len(r.Events)
 	fn, _ := r.FuncFor(context.Background(), "_first")
+	r.Events = r.Events[:n] // the engine does not look the function up: no lookup event
 	return fn
 }
